@@ -30,6 +30,47 @@ _STATE = {'fault': None, 'evdir': None, 'parent': None, 'seq': 0, 'counts': {}, 
           'fired': False, 'snap': True, 'phase': 'main'}
 
 
+def _cov_restart_after_fork():
+    """Only when the drivers run under coverage.py (tools/coverage_report.py): give the forked child its own data file."""
+    if not (os.environ.get('COVERAGE_PROCESS_START') or os.environ.get('COVERAGE_PROCESS_CONFIG')):
+        return
+    try:
+        from coverage.control import _after_fork_in_child
+        _after_fork_in_child()
+    except Exception:
+        pass
+
+
+_POOLS = []
+
+
+def _cov_join_pools():
+    import threading
+    for pl in _POOLS:
+        def fin(pl=pl):
+            try:
+                pl.close()
+                pl.join()
+            except Exception:
+                pass
+        t = threading.Thread(target=fin, daemon=True)
+        t.start()
+        t.join(5)
+
+
+def _cov_save():
+    """os._exit skips atexit: write the coverage data of this process first (no-op without coverage)."""
+    if not (os.environ.get('COVERAGE_PROCESS_START') or os.environ.get('COVERAGE_PROCESS_CONFIG')):
+        return
+    try:
+        import coverage
+        c = coverage.Coverage.current()
+        if c is not None:
+            c.save()
+    except Exception:
+        pass
+
+
 class InjectedFault(RuntimeError):
     pass
 
@@ -150,6 +191,7 @@ def point(site, when, target=None):
         return
     if f['kind'] == 'kill':
         sys.stdout.flush()
+        _cov_save()
         os._exit(137)
     _raise(f, 'injected at %s:%s #%d' % (site, when, n), site)
 
@@ -204,6 +246,16 @@ def install(fault, evdir, out_path, snapshots=True):
     st = _STATE
     st.update(evdir=evdir, parent=os.getpid(), seq=0, out=out_path, snap=snapshots)
     arm(fault)
+    if os.environ.get('COVERAGE_PROCESS_START') or os.environ.get('COVERAGE_PROCESS_CONFIG'):
+        # measurement runs only: coverage's SIGTERM handler inside pool workers can dead-lock the pool's terminate-on-garbage-
+        # collection; keep the pools referenced and let _child() join them (workers then exit normally and save their data)
+        real_pool = tm.Pool
+
+        def keep_pool(*a, **k):
+            pl = real_pool(*a, **k)
+            _POOLS.append(pl)
+            return pl
+        tm.Pool = keep_pool
     tm.sleep = lambda s: None            # harness-side patch that only removes waiting (listed in the evidence assumptions)
 
     real_ws = tm.write_status
@@ -404,6 +456,7 @@ def _child(case, cdir):
     """Runs in the forked child: install hooks, run the CLI, record how it ended."""
     import io
     os.setsid()
+    _cov_restart_after_fork()
     devnull = os.open(os.devnull, os.O_RDWR)
     log = os.open(os.path.join(cdir, 'log.txt'), os.O_WRONLY | os.O_CREAT | os.O_TRUNC)
     os.dup2(devnull, 0)
@@ -443,6 +496,8 @@ def _child(case, cdir):
             traceback.print_exc()
         emit(end)
         sys.stdout.flush()
+        _cov_join_pools()
+        _cov_save()
         os._exit(0 if not end['raised'] or end['raised'] == 'StopAfterPlan' else 1)
     except BaseException:
         import traceback
@@ -478,9 +533,11 @@ def run_cases(cases, workdir, parallel=8, timeout=60, hang_timeout=8):
             running[pid] = (c, cdir, time.time())
         done = []
         for pid, (c, cdir, t0) in running.items():
-            r, stt = os.waitpid(pid, os.WNOHANG)
+            # look without reaping: while the child is a zombie its pid (= process group id) cannot be re-used, so the
+            # killpg below can only hit this case's own pool workers
+            si = os.waitid(os.P_PID, pid, os.WEXITED | os.WNOHANG | os.WNOWAIT)
             lim = hang_timeout if c.get('expect_hang') else timeout
-            if r == 0:
+            if si is None:
                 if time.time() - t0 > lim:
                     try:
                         os.killpg(pid, signal.SIGKILL)
@@ -489,14 +546,15 @@ def run_cases(cases, workdir, parallel=8, timeout=60, hang_timeout=8):
                     os.waitpid(pid, 0)
                     done.append((pid, -9, True))
                 continue
+            try:
+                os.killpg(pid, signal.SIGKILL)
+            except OSError:
+                pass
+            r, stt = os.waitpid(pid, 0)
             code = os.WEXITSTATUS(stt) if os.WIFEXITED(stt) else -os.WTERMSIG(stt)
             done.append((pid, code, False))
         for pid, code, to in done:
             c, cdir, t0 = running.pop(pid)
-            try:
-                os.killpg(pid, signal.SIGKILL)      # pool workers of a killed parent would wait forever
-            except OSError:
-                pass
             results[c['id']] = {'exit': code, 'timeout': to, 'dir': cdir, 'events': collect_events(cdir),
                                 'wall': round(time.time() - t0, 2)}
         if not done:
